@@ -211,7 +211,7 @@ def print_assumptions(prop, extra=()):
     return res, so
 
 
-EXTRA_PROPS = {"C10": [("C10live", None)], "C08": [("EndToEnd", None)], "C03": [("ValidPos", None)], "C07": [("C07print", None)], "C12": [("C12off", None), ("C12offchess", None), ("C12sound", None), ("C12soundchess", None), ("C12strict", None)], "C02": [("C02closed", "C02"), ("C02search", None)], "C01": [("RulesPerft", None)], "C04": [("C02closed", "C04")], "C09": [("C09chess", None)], "C11": [("C11chess", None)], "C13": [("ChessInstances", "C13"), ("C13prefix", None)],
+EXTRA_PROPS = {"C10": [("C10live", None)], "C08": [("EndToEnd", None)], "C03": [("ValidPos", None)], "C07": [("C07print", None)], "C12": [("C12off", None), ("C12offchess", None), ("C12sound", None), ("C12soundchess", None), ("C12strict", None), ("C12seenRefuted", None), ("C12seen", None)], "C02": [("C02closed", "C02"), ("C02search", None)], "C01": [("RulesPerft", None)], "C04": [("C02closed", "C04")], "C09": [("C09chess", None)], "C11": [("C11chess", None)], "C13": [("ChessInstances", "C13"), ("C13prefix", None)],
                "C14": [("ChessInstances", "C14"), ("C14syntax", None)], "C16": [("ChessInstances", "C16")]}
 
 
@@ -422,6 +422,8 @@ def coq_eval_items(name, header, items, wrap, nshards=None, timeout=1200):
         return [], ""
     if nshards is None:
         nshards = min(NPROC, n)
+    # never more than 2000 items (or about 400 kB of term text) in one file: a huge list literal overflows coqc's stack
+    nshards = max(nshards, -(-n // 2000), -(-sum(len(x) for x in items) // 400000))
     shards = [items[i::nshards] for i in range(nshards)]
     terms = [wrap("[" + ";\n ".join(sh) + "]") for sh in shards]
     vals, lg = coq_eval_terms(name, header, terms, timeout)
